@@ -4,6 +4,8 @@ import PsModel.Lemmas.C05
 
 Only property statements live here; helper lemmas are in `Lemmas/C05.lean`.
 
+`New.current` / `New.preFix` are the deviation flags of the new subsystem's `_cycle` after / before the `fix:` commits
+`d4cc584` and `9670c81`; `New.holdRuns` is the machine with the current flags.
 `Spec.holdRuns cfg b0 hist` is the documented timeline; `Legacy.holdRuns` the loop-variable machine of
 `trigger_watch`; `WaitUntil.firstReturn` the one of legacy `task.wait_until`; `New.holdRuns` / `New.firstReturn` the
 machine of `StateTriggerDecorator` (decorator / inside `task.wait_until`).  All theorems are for every configuration
@@ -50,60 +52,60 @@ theorem C05_waituntil_cex :
       (Spec.holdRuns cfg false hist).head? = some (2000, 1) := by
   decide
 
-/-- **New subsystem, decorators: when things happen** (partial).  On histories without messages that cause no
-evaluation (`skip`) and outside `state_check_now ∧ state_hold_false ∧ initially true`, the runs happen at exactly
-the times of the timeline. -/
-theorem C05_new_partial_times (cfg : Cfg) (b0 : Bool) (hist : List Evt) (h : NoTies cfg hist)
-    (hns : noSkip hist = true) (hok : ¬ (cfg.checkNow = true ∧ cfg.holdFalse.isSome = true ∧ b0 = true)) :
-    (New.holdRuns cfg b0 hist).map (·.1) = (Spec.holdRuns cfg b0 hist).map (·.1) := by
-  unfold New.holdRuns Spec.holdRuns
-  exact (new_sim cfg hist _ _ (nr_start cfg false b0 hok) hns
-    (fun s hs => by rw [nr_start_te cfg false b0 s hs]; exact h.1) h.2).1
-
-/-- **New subsystem, decorators: full agreement without `state_hold`** (partial): the arguments can only go stale
-while a delay is pending (`C05_new_cex_latest_args`). -/
+/-- **New subsystem, decorators** (code after the fixes `d4cc584`, `9670c81`): on EVERY no-ties history – messages that
+cause no evaluation included, with or without `state_hold` – `_cycle` produces exactly the timeline's runs: same
+times, and the arguments of the first candidate of each delay.  Still partial: outside
+`state_check_now ∧ state_hold_false ∧ initially true` (`C05_new_cex_checknow_holdfalse_no_start`, finding C05-F3). -/
 theorem C05_new_partial (cfg : Cfg) (b0 : Bool) (hist : List Evt) (h : NoTies cfg hist)
-    (hns : noSkip hist = true) (hok : ¬ (cfg.checkNow = true ∧ cfg.holdFalse.isSome = true ∧ b0 = true))
-    (hS : cfg.hold = none) :
+    (hok : ¬ (cfg.checkNow = true ∧ cfg.holdFalse.isSome = true ∧ b0 = true)) :
     New.holdRuns cfg b0 hist = Spec.holdRuns cfg b0 hist := by
-  unfold New.holdRuns Spec.holdRuns
-  exact (new_sim cfg hist _ _ (nr_start cfg false b0 hok) hns
-    (fun s hs => by rw [nr_start_te cfg false b0 s hs]; exact h.1) h.2).2 hS
+  unfold New.holdRuns New.holdRunsF Spec.holdRuns
+  obtain ⟨hs, hi⟩ := nabs_start cfg false b0 hok
+  have := new_sim cfg hist _ hi (fun s hs => by rw [nr_start_te cfg false b0 s hs]; exact h.1) h.2
+  rw [hs] at this
+  rw [← this]
+  rfl
 
-/-- **New subsystem, `task.wait_until`: time of the first return** (partial, same fragment). -/
+/-- **New subsystem, `task.wait_until`**: the first return is the first run of the timeline (same fragment; inside it
+the `state_hold_false` reset of `task.wait_until` is a no-op – outside see
+`C05_new_waituntil_cex_holdfalse_disabled`, finding C05-F5). -/
 theorem C05_new_waituntil_partial (cfg : Cfg) (b0 : Bool) (hist : List Evt) (h : NoTies cfg hist)
-    (hns : noSkip hist = true) (hok : ¬ (cfg.checkNow = true ∧ cfg.holdFalse.isSome = true ∧ b0 = true)) :
-    (New.firstReturn cfg b0 hist).map (·.1) = ((Spec.holdRuns cfg b0 hist).head?).map (·.1) := by
-  unfold New.firstReturn Spec.holdRuns
-  have := (new_sim cfg hist _ _ (nr_start cfg true b0 hok) hns
-    (fun s hs => by rw [nr_start_te cfg true b0 s hs]; exact h.1) h.2).1
-  rw [← List.head?_map, ← List.head?_map, this]
+    (hok : ¬ (cfg.checkNow = true ∧ cfg.holdFalse.isSome = true ∧ b0 = true)) :
+    New.firstReturn cfg b0 hist = (Spec.holdRuns cfg b0 hist).head? := by
+  unfold New.firstReturn New.firstReturnF Spec.holdRuns
+  obtain ⟨hs, hi⟩ := nabs_start cfg true b0 hok
+  have := new_sim cfg hist _ hi (fun s hs => by rw [nr_start_te cfg true b0 s hs]; exact h.1) h.2
+  rw [hs] at this
+  rw [← this]
+  rfl
 
-/-- #13: `@state_trigger(expr, state_hold=5)`, true at 1 s, attribute-only update of the watched entity at 3 s: the new
-`_cycle` treats the message as `trig_ok = False`, the hold is cancelled and the function never runs.
-Timeline and legacy: run at 6 s. -/
-theorem C05_new_cex_attr_update_cancels_hold :
+/-- regression (#13, fixed by `d4cc584`): `state_hold=5`, true at 1 s, attribute-only update at 3 s.  The PRE-FIX
+`_cycle` (`New.preFix`) handled the message as `trig_ok = False`: the hold was cancelled and the function never ran;
+the code as it is now runs at 6 s like the timeline and legacy. -/
+theorem C05_new_regress_attr_update_cancels_hold :
     let cfg : Cfg := ⟨false, some 5000, none⟩
     let hist : List Evt := [⟨1000, .eval true, 1⟩, ⟨3000, .skip, 2⟩]
-    NoTies cfg hist ∧ New.holdRuns cfg false hist = [] ∧ Spec.holdRuns cfg false hist = [(6000, 1)] ∧
-      Legacy.holdRuns cfg false hist = [(6000, 1)] := by
+    NoTies cfg hist ∧ New.holdRunsF New.preFix cfg false hist = [] ∧ New.holdRuns cfg false hist = [(6000, 1)] ∧
+      Spec.holdRuns cfg false hist = [(6000, 1)] ∧ Legacy.holdRuns cfg false hist = [(6000, 1)] := by
   decide
 
-/-- #14: two true evaluations during a hold: the run gets the LATEST event's arguments (`last_func_args` is
-overwritten by every message); the timeline and legacy pass the first event's. -/
-theorem C05_new_cex_latest_args :
+/-- regression (#14, fixed by `9670c81`): two true evaluations during a hold.  PRE-FIX the run got the LATEST event's
+arguments (`last_func_args` overwritten by every message); now it gets the first event's, like the timeline. -/
+theorem C05_new_regress_latest_args :
     let cfg : Cfg := ⟨false, some 5000, none⟩
     let hist : List Evt := [⟨1000, .eval true, 1⟩, ⟨3000, .eval true, 2⟩]
-    NoTies cfg hist ∧ New.holdRuns cfg false hist = [(6000, 2)] ∧ Spec.holdRuns cfg false hist = [(6000, 1)] := by
+    NoTies cfg hist ∧ New.holdRunsF New.preFix cfg false hist = [(6000, 2)] ∧
+      New.holdRuns cfg false hist = [(6000, 1)] ∧ Spec.holdRuns cfg false hist = [(6000, 1)] := by
   decide
 
-/-- same root as #13: with `state_hold_false=2`, expression true since start, an attribute-only update at 1 s starts a
-"false" period although nothing was evaluated, and the true evaluation at 5 s fires.  Timeline and legacy: no run. -/
-theorem C05_new_cex_skip_starts_false_period :
+/-- regression (same root as #13, fixed by `d4cc584`): `state_hold_false=2`, expression true since start, an
+attribute-only update at 1 s.  PRE-FIX it started a "false" period although nothing was evaluated and the true
+evaluation at 5 s fired; now, like timeline and legacy: no run. -/
+theorem C05_new_regress_skip_starts_false_period :
     let cfg : Cfg := ⟨false, none, some 2000⟩
     let hist : List Evt := [⟨1000, .skip, 1⟩, ⟨5000, .eval true, 2⟩]
-    NoTies cfg hist ∧ New.holdRuns cfg true hist = [(5000, 2)] ∧ Spec.holdRuns cfg true hist = [] ∧
-      Legacy.holdRuns cfg true hist = [] := by
+    NoTies cfg hist ∧ New.holdRunsF New.preFix cfg true hist = [(5000, 2)] ∧ New.holdRuns cfg true hist = [] ∧
+      Spec.holdRuns cfg true hist = [] ∧ Legacy.holdRuns cfg true hist = [] := by
   decide
 
 /-- `state_check_now=True` with `state_hold_false`, expression true at definition time: the documented trigger at
@@ -135,6 +137,14 @@ theorem C05_irrelevant_legacy (cfg : Cfg) (b0 : Bool) (hist : List Evt) (h : NoT
     Legacy.holdRuns cfg b0 (hist.filter isEval) = Legacy.holdRuns cfg b0 hist := by
   have h' : NoTies cfg (hist.filter isEval) := ⟨gridFrom_filter isEval h.1, grid_filter isEval h.2⟩
   rw [C05_legacy cfg b0 _ h', C05_legacy cfg b0 _ h, C05_irrelevant cfg b0 hist (grid_sorted h.2)]
+
+/-- **Irrelevance (new subsystem, current code).**  Since `d4cc584` no timer of `_cycle` is touched by such changes
+either (fragment of `C05_new_partial`). -/
+theorem C05_irrelevant_new (cfg : Cfg) (b0 : Bool) (hist : List Evt) (h : NoTies cfg hist)
+    (hok : ¬ (cfg.checkNow = true ∧ cfg.holdFalse.isSome = true ∧ b0 = true)) :
+    New.holdRuns cfg b0 (hist.filter isEval) = New.holdRuns cfg b0 hist := by
+  have h' : NoTies cfg (hist.filter isEval) := ⟨gridFrom_filter isEval h.1, grid_filter isEval h.2⟩
+  rw [C05_new_partial cfg b0 _ h' hok, C05_new_partial cfg b0 _ h hok, C05_irrelevant cfg b0 hist (grid_sorted h.2)]
 
 /-- non-vacuity: a history on the grid where the initial check starts a hold that fires (2.5 s), a hold that is
 cancelled (true 5 s, false 7 s), a `state_hold_false` rejection (true 8 s after 1 s of false), `skip`/`unrelated`
